@@ -197,7 +197,7 @@ func (env *Env) checkEvents(rs *RefState) string {
 					continue
 				}
 				if got := len(env.eventsIn(i, a.In.Seq, a.Out.Seq)["hedge"]); got != a.Started-1 {
-					return fmt.Sprintf("hedge %d: OnHedge x%d, %d hedges started", i, got, a.Started-1)
+					return fmt.Sprintf("hedge %d: OnHedge x%d, %d hedge attempts were started", i, got, a.Started-1)
 				}
 			}
 		case KCache:
@@ -280,12 +280,32 @@ func (env *Env) checkStats() string {
 	// the statistics are read one getter at a time between log positions seq0 and seq1; other
 	// threads (hedge attempts) may start hedges and complete invocations in between, and a hedge
 	// bumps the counters just before its OnHedge event is logged
+	// ground truth for hedges: the attempts the hedge applications of this execution actually started
+	// (goroutines spawned), whatever the OnHedge events say
+	hedgesStarted := 0
+	var allApps [][]*App
+	if hasHedge {
+		_, byLayer := env.Apps()
+		allApps = byLayer
+		for i, s := range env.Stack {
+			if s.Kind == KHedge {
+				for _, a := range byLayer[i] {
+					if a.Started > 0 {
+						hedgesStarted += a.Started - 1
+					}
+				}
+			}
+		}
+	}
 	at := func(what string, seq0, seq1, attempts, execs, retries, hedges int) string {
 		r0, r1 := count("retry", seq0), count("retry", seq1)
 		h0, h1 := count("hedge", seq0), count("hedge", seq1)
 		if hasHedge {
 			h1++
 			r1++
+			if hedges > hedgesStarted {
+				return fmt.Sprintf("%s: Hedges=%d, but only %d hedge attempts were started in the whole execution", what, hedges, hedgesStarted)
+			}
 		}
 		if retries < r0 || retries > r1 || hedges < h0 || hedges > h1 || attempts < 1+r0+h0 || attempts > 1+r1+h1 {
 			return fmt.Sprintf("%s: Attempts=%d Retries=%d Hedges=%d, but %d..%d retries and %d..%d hedges had been started", what, attempts, retries, hedges, r0, r1, h0, h1)
@@ -316,6 +336,29 @@ func (env *Env) checkStats() string {
 		}
 		if !hasHedge && inv.IsHedge {
 			return fmt.Sprintf("invocation %d: IsHedge without a hedge policy", k)
+		}
+		if hasHedge {
+			// an invocation is part of a hedge exactly when, on the way up, it passes through an attempt
+			// of a hedge application other than that application's first
+			var leaf *App
+			for _, a := range allApps[len(env.Policies)] {
+				if a.In.Thread == inv.Thread && a.In.Seq < inv.SeqIn && (a.Out == nil || inv.SeqIn < a.Out.Seq) {
+					leaf = a
+				}
+			}
+			want, known := false, leaf != nil
+			for a := leaf; a != nil && a.Layer > 0; a = a.Parent {
+				if a.Parent == nil {
+					known = false
+					break
+				}
+				if env.Stack[a.Layer-1].Kind == KHedge && a.Parent.Children[0] != a {
+					want = true
+				}
+			}
+			if known && inv.IsHedge != want {
+				return fmt.Sprintf("invocation %d: IsHedge=%v, the invocation is part of a hedge attempt=%v (Attempts=%d Hedges=%d)", k, inv.IsHedge, want, inv.Attempts, inv.Hedges)
+			}
 		}
 		if !hasHedge && inv.Returned && inv.ExecutionsAtExit != completed(inv.SeqOut) {
 			return fmt.Sprintf("invocation %d (exit): Executions=%d, %d invocations had completed before it", k, inv.ExecutionsAtExit, completed(inv.SeqOut))
